@@ -26,6 +26,9 @@ Report(clause, part, q, m, want) ==
 
 \* the directory backend is bound for exact-case spellings only
 Bound(fold, backend, fs, n) == backend # "raw" \/ ExactFor(fold, fs, n)
+\* a member is judged on whatever text the chain hands it: "." and empty segments (from a prefix
+\* spelled './x', 'x//', 'x\\') denote nothing, like a trailing separator
+BoundText(fold, backend, fs, text) == Bound(fold, backend, fs, TextComps(text))
 
 (* ---- one look-up / one walk on one backend ------------------------------------- *)
 \* got = [has, hase, c, ce, cb, cbe, cs, cse]
@@ -72,6 +75,9 @@ ChainChecked(r) ==
         newm == [k |-> r.act.k]
         wantOrder == IF r.act.pr THEN <<r.act.k>> \o r.pre ELSE Append(r.pre, r.act.k)
     IN
+    \* (harness) every prefix spelling denotes the member's prefix components
+    /\ ((\A m \in 1..M : TextComps(r.members[m].pfxs) = r.members[m].pfx)
+          \/ Report("input.prefix", "act", 0, 0, pfxs))
     \* add_sys(priority) puts the member first, otherwise last
     /\ (r.order = wantOrder \/ Report("chain.order", "act", 0, 0, wantOrder))
     /\ \A j \in 1..Len(r.lookups) :
@@ -79,7 +85,7 @@ ChainChecked(r) ==
              hit == {c \in 1..Len(calls) : calls[c].found}
          IN
          \* members are asked in priority order, for prefix + name, until one has it
-         /\ ((/\ \A c \in 1..Len(calls) : calls[c].m = c /\ calls[c].argc = pfxs[c] \o n
+         /\ ((/\ \A c \in 1..Len(calls) : calls[c].m = c /\ TextComps(calls[c].arg) = pfxs[c] \o n
               /\ (hit = {} => Len(calls) = M) /\ (hit # {} => hit = {Len(calls)}))
                \/ Report("chain.lookup.route", "lookups", j, 0, [c \in 1..M |-> pfxs[c] \o n]))
          \* the answer is that member's answer
@@ -92,8 +98,8 @@ ChainChecked(r) ==
                \/ Report("chain.lookup.owner", "lookups", j, 0, IF hit = {} THEN 0 ELSE Len(calls)))
          \* each member answers as its file set says
          /\ \A c \in 1..Len(calls) :
-              LET mfs == MemberFs(r, calls[c].m) want == Lookup(fold, mfs, calls[c].argc) IN
-              Bound(fold, r.members[calls[c].m].backend, mfs, calls[c].argc) =>
+              LET mfs == MemberFs(r, calls[c].m) want == Lookup(fold, mfs, TextComps(calls[c].arg)) IN
+              BoundText(fold, r.members[calls[c].m].backend, mfs, calls[c].arg) =>
                  ((IF want = {} THEN ~calls[c].found /\ calls[c].e = NotFound
                    ELSE calls[c].found /\ calls[c].c \in want)
                     \/ Report("member.lookup", "lookups", j, c, want))
@@ -101,12 +107,12 @@ ChainChecked(r) ==
          LET w == r.walks[j] d == QOf(w) calls == w.calls
              lists == [c \in 1..Len(calls) |-> ListOf(calls[c].items)]
              deviates == \E c \in 1..Len(calls) :
-                            GotKeys(fold, calls[c].items) # WalkKeys(fold, MemberFs(r, calls[c].m), calls[c].argc)
+                            GotKeys(fold, calls[c].items) # WalkKeys(fold, MemberFs(r, calls[c].m), TextComps(calls[c].arg))
              got == ListOf(w.items)
          IN
          /\ (w.e = "" \/ Report("chain.walk.error", "walks", j, 0, w.e))
          \* every member is walked, in priority order, at prefix + folder
-         /\ ((Len(calls) = M /\ \A c \in 1..Len(calls) : calls[c].m = c /\ calls[c].argc = pfxs[c] \o d)
+         /\ ((Len(calls) = M /\ \A c \in 1..Len(calls) : calls[c].m = c /\ TextComps(calls[c].arg) = pfxs[c] \o d)
                \/ Report("chain.walk.route", "walks", j, 0, [c \in 1..M |-> pfxs[c] \o d]))
          \* the chain's list = members' lists, names relative to the prefix, first occurrence of each name
          /\ (Len(calls) = M =>
@@ -120,9 +126,9 @@ ChainChecked(r) ==
                  \/ Report("chain.walk.repeat", "walks", j, 0, want)))
          \* each member lists what its file set says
          /\ \A c \in 1..Len(calls) :
-              LET mfs == MemberFs(r, calls[c].m) want == WalkKeys(fold, mfs, calls[c].argc)
+              LET mfs == MemberFs(r, calls[c].m) want == WalkKeys(fold, mfs, TextComps(calls[c].arg))
                   gotc == GotKeys(fold, calls[c].items) IN
-              Bound(fold, r.members[calls[c].m].backend, mfs, calls[c].argc) =>
+              BoundText(fold, r.members[calls[c].m].backend, mfs, calls[c].arg) =>
                  /\ (want \subseteq gotc \/ Report("walk.missing", "walks", j, c, want \ gotc))
                  /\ (gotc \subseteq want \/ Report("walk.extra", "walks", j, c, gotc \ want))
          \* end to end (when the members behaved): exactly the specified names, each yielding, by
